@@ -47,6 +47,13 @@ ASSUMPTIONS = [
     "U+FFFE/U+FFFF: url.py's regex admits them while the LBRY spec text reserves or is silent on them -> only "
     "parse/print stability is required (class name_dc)",
     "legacy: only the fields compat.py maps are asserted; junk v0 'language' values are a don't-care",
+    "location colon-strings are generated only in the documented forms (all six parts; trailing blanks omitted while "
+    ">= 3 parts or a country remain; 'LAT:LON'); state/city/code contain no ':' in that form",
+    "fee amounts are handed over as str / Decimal / int as the daemon documents '(decimal)'; JSON floats are not "
+    "generated; the fee address is a Base58Check address with LBRY's 0x55 / 0x7a version byte",
+    "publishing from file_path (reads the file, hachoir) is not exercised; `filetype` content sniffing is shimmed",
+    "generated v1 certificates carry a secp256k1 SubjectPublicKeyInfo only (the only kind the getter can compress)",
+    "accessor read-back that differs already on the original object is not reported again for the decoded object",
     "tags are compared with a character-level re-statement of tags.py's rules (lower, drop ', [#!~]->space, runs of "
     ">=2 whitespace -> one space, strip, drop empty and duplicates keeping first)",
 ]
